@@ -381,7 +381,8 @@ func run(t *rapid.T, ver version, gated bool) {
 		changed := ver.step(a, p.T, p.Direct)
 		gotOff, gotRem := a.stateAt(p.T)
 
-		// (2) reference schedule under the evaluation discipline
+		// model of the evaluation discipline: a gated poll evaluates once a full
+		// tolerance has elapsed in the current view, a direct poll always does
 		if p.Direct || p.T-gStart >= int64(tol) {
 			off, rem, ok := ver.ref(gOff, int64(n), int64(tol), p.T-gStart)
 			if !ok {
@@ -390,6 +391,17 @@ func run(t *rapid.T, ver version, gated bool) {
 			gOff, gStart = off, p.T-rem
 		}
 		disciplined := int64(gotOff) == gOff && gotRem == p.T-gStart
+
+		// (1) incremental == one-shot on the real code: a fresh view evaluated once
+		// at this instant through the SAME entry point as this poll (gated polls
+		// are compared with a gated single evaluation, direct with direct)
+		one := newArbiter(keys, c.Self, mock, tol, o)
+		ver.step(one, p.T, p.Direct)
+		if sOff, sRem := one.stateAt(p.T); gotOff != sOff || gotRem != sRem {
+			mismatch(fmt.Sprintf("after polls[0..%d] offset %d elapsed-in-view %dns; a single evaluation (direct=%v) at %dns gives offset %d elapsed %dns", i, gotOff, gotRem, p.Direct, p.T, sOff, sRem), disciplined)
+			break
+		}
+		// (2) reference schedule under the evaluation discipline
 		if !disciplined {
 			sig := "C26:calculateOffsetTime" + ver.name + ":reference-schedule"
 			if gated {
@@ -398,16 +410,10 @@ func run(t *rapid.T, ver version, gated bool) {
 			report(sig, fmt.Sprintf("poll %d at %dns: offset %d elapsed-in-view %dns, reference gives offset %d elapsed %dns", i, p.T, gotOff, gotRem, gOff, p.T-gStart))
 			break
 		}
-
-		// (1) incremental == one-shot on the real code (one direct evaluation of a fresh view)
-		one := newArbiter(keys, c.Self, mock, tol, o)
-		ver.step(one, p.T, true)
-		oneOff, oneRem := one.stateAt(p.T)
-		if gotOff != oneOff || gotRem != oneRem {
-			mismatch(fmt.Sprintf("after polls[0..%d] offset %d elapsed-in-view %dns; a single evaluation at %dns gives offset %d elapsed %dns", i, gotOff, gotRem, p.T, oneOff, oneRem), disciplined)
-			break
-		}
-		// ... and the one-shot equals the plain reference
+		// ... and a direct single evaluation equals the plain reference
+		plain := newArbiter(keys, c.Self, mock, tol, o)
+		ver.step(plain, p.T, true)
+		oneOff, oneRem := plain.stateAt(p.T)
 		if wOff, wRem, _ := ver.ref(int64(o), int64(n), int64(tol), p.T); int64(oneOff) != wOff || oneRem != wRem {
 			report("C26:calculateOffsetTime"+ver.name+":reference-schedule",
 				fmt.Sprintf("single evaluation at %dns: offset %d remainder %dns, documented schedule gives offset %d remainder %dns", p.T, oneOff, oneRem, wOff, wRem))
